@@ -168,6 +168,31 @@ Proof.
       apply keqb_spec in E2. apply keqb_spec in E3. subst. rewrite keqb_refl in E. discriminate.
 Qed.
 
+(* get-or-create creates once (round 2): in EVERY sequential order of GetOrCreate calls for one key - whatever the options,
+   the state they start from and the constructors' values - the call that comes first decides the value, every call
+   returns that value, and only a call that found the key missing reports created = true. (Concurrent callers are some
+   sequential order iff the method is atomic; that part is tied to the code by the harness' forced interleavings.) *)
+Lemma goc_present : forall o k (vs : list V) (s : st K V) x, find k (m s) = Some x ->
+  run keqb o s (map (EGetOrCreate k) vs) = (s, map (fun _ => OVal x false) vs).
+Proof.
+  induction vs as [|v t IH]; intros s x H; simpl; auto.
+  rewrite H. rewrite (IH s x H). reflexivity.
+Qed.
+
+Theorem getorcreate_creates_once : forall o (s : st K V) k v0 (vs : list V),
+  let w := match find k (m s) with Some x => x | None => v0 end in
+  let created := match find k (m s) with Some _ => false | None => true end in
+  let r := run keqb o s (map (EGetOrCreate k) (v0 :: vs)) in
+  snd r = OVal w created :: map (fun _ => OVal w false) vs /\ find k (m (fst r)) = Some w.
+Proof.
+  intros o s k v0 vs. cbv zeta. simpl map. simpl run.
+  destruct (find k (m s)) as [x|] eqn:F.
+  - rewrite (goc_present o k vs s x F). simpl. auto.
+  - assert (F2 : find k (m (mkSt (put k v0 (m s)) (deleted s))) = Some v0).
+    { simpl. rewrite find_put. rewrite keqb_refl. reflexivity. }
+    rewrite (goc_present o k vs _ v0 F2). simpl. split; auto.
+Qed.
+
 End SMapProofs.
 
 (* the model does shrink: with ratio 1/2 and count 2 the counter is reset by the second deletion *)
